@@ -9,34 +9,43 @@
    PinFrozen re-enables the pinned behaviour (discovery values re-sent for ever; fixed by bb6eea0). *)
 EXTENDS Naturals, Integers, TLC
 CONSTANTS PinFrozen, Steps, MaxDepth,
-          InitBoots     \* snmpEngineBoots values the agent may start with (0 is legal: a factory-fresh engine)
-VARIABLES ab, at, now, lc, rebootPending, failsSinceReboot, last, nprobe
-vars == <<ab, at, now, lc, rebootPending, failsSinceReboot, last, nprobe>>
+          InitBoots,    \* snmpEngineBoots values the agent may start with (0 is legal: a factory-fresh engine)
+          Clients,      \* client objects created in this process for the one agent (each has its own security model = its own notion of the engine)
+          PinSharedLcd  \* all clients share one notion (a class-level / default-argument dict: seeded C05-m8, C10-m8, C11-m8, C12-m7)
+VARIABLES ab, at, now, lcs, rebootPending, failsSinceReboot, last, nprobe
+vars == <<ab, at, now, lcs, rebootPending, failsSinceReboot, last, nprobe>>
 None == [set |-> FALSE, boots |-> 0, time |-> 0, at |-> 0]
-Init == /\ ab \in InitBoots /\ at = 1000 /\ now = 0 /\ lc = None /\ rebootPending = FALSE /\ failsSinceReboot = 0 /\ last = "none" /\ nprobe = 0
+Init == /\ ab \in InitBoots /\ at = 1000 /\ now = 0 /\ lcs = [c \in Clients |-> None] /\ rebootPending = [c \in Clients |-> FALSE]
+        /\ failsSinceReboot = [c \in Clients |-> 0] /\ last = "none" /\ nprobe = [c \in Clients |-> 0]
 Advance(d) == /\ now' = now + d /\ at' = at + d /\ last' = "advance"
-              /\ UNCHANGED <<ab, lc, rebootPending, failsSinceReboot, nprobe>>
-Reboot == /\ ab' = ab + 1 /\ at' = 0 /\ rebootPending' = lc.set /\ failsSinceReboot' = 0 /\ last' = "reboot"
-          /\ UNCHANGED <<now, lc, nprobe>>
+              /\ UNCHANGED <<ab, lcs, rebootPending, failsSinceReboot, nprobe>>
+\* a reboot is "pending" for every client that holds a notion of the engine (it will be told by the first notInTimeWindow Report)
+Reboot == /\ ab' = ab + 1 /\ at' = 0 /\ rebootPending' = [c \in Clients |-> nprobe[c] > 0] /\ failsSinceReboot' = [c \in Clients |-> 0] /\ last' = "reboot"
+          /\ UNCHANGED <<now, lcs, nprobe>>
 Abs(x) == IF x < 0 THEN -x ELSE x
-Request ==
-  LET d0 == IF lc.set THEN lc ELSE [set |-> TRUE, boots |-> ab, time |-> at, at |-> now]     \* discovery probe answered by the agent
+Lc(c) == IF PinSharedLcd THEN lcs[CHOOSE k \in Clients : TRUE] ELSE lcs[c]
+Request(c) ==
+  LET discovered == nprobe[c] > 0                          \* this client object has run its discovery (V3MPM.disco)
+      known == Lc(c)
+      \* discovery: the probe is answered with the agent's boots / time; the timing is seeded only if the engine is not yet in the datastore
+      d0 == IF known.set THEN known ELSE [set |-> TRUE, boots |-> ab, time |-> at, at |-> now]
       sentBoots == d0.boots
       sentTime == IF PinFrozen THEN d0.time ELSE d0.time + (now - d0.at)
       ok == sentBoots = ab /\ Abs(sentTime - at) <= 150
       newer == ab > d0.boots \/ (ab = d0.boots /\ at > d0.time)
       synced == IF ~PinFrozen /\ newer THEN [set |-> TRUE, boots |-> ab, time |-> at, at |-> now] ELSE d0
-  IN /\ lc' = synced
-     /\ nprobe' = IF lc.set THEN nprobe ELSE nprobe + 1
-     /\ failsSinceReboot' = IF ok THEN failsSinceReboot ELSE failsSinceReboot + 1
-     /\ rebootPending' = IF ~PinFrozen THEN FALSE ELSE rebootPending
-     /\ last' = IF ok THEN "ok" ELSE IF rebootPending THEN "fail_after_reboot" ELSE "fail_without_reboot"
+      slot == IF PinSharedLcd THEN CHOOSE k \in Clients : TRUE ELSE c
+  IN /\ lcs' = [lcs EXCEPT ![slot] = synced]
+     /\ nprobe' = [nprobe EXCEPT ![c] = IF discovered THEN @ ELSE @ + 1]
+     /\ failsSinceReboot' = [failsSinceReboot EXCEPT ![c] = IF ok THEN @ ELSE @ + 1]
+     /\ rebootPending' = [rebootPending EXCEPT ![c] = IF ~PinFrozen THEN FALSE ELSE @]
+     /\ last' = IF ok THEN "ok" ELSE IF rebootPending[c] THEN "fail_after_reboot" ELSE "fail_without_reboot"
      /\ UNCHANGED <<ab, at, now>>
-Next == (\E d \in Steps : Advance(d)) \/ Reboot \/ Request
+Next == (\E d \in Steps : Advance(d)) \/ Reboot \/ (\E c \in Clients : Request(c))
 Spec == Init /\ [][Next]_vars
 Depth == TLCGet("level") <= MaxDepth
 \* C12 (weaker reading): a request fails only if the agent rebooted since the client last heard from it, and then only once
 OnlyAfterReboot == last # "fail_without_reboot"
-AtMostOneFailPerReboot == failsSinceReboot <= 1
-DiscoveryOnce == nprobe <= 1
+AtMostOneFailPerReboot == \A c \in Clients : failsSinceReboot[c] <= 1
+DiscoveryOnce == \A c \in Clients : nprobe[c] <= 1
 ====
